@@ -27,7 +27,7 @@ Lemma chase_loop_unfold f q o rcode answer target targets :
       else match last_cname_target ans None with
            | None => ChMsg rcode answer'
            | Some t' =>
-               if bytes_list_eqb t' (q_name q) then ChServfail
+               if name_eqb t' (q_name q) then ChServfail
                else if Nat.ltb 0 f && negb (has_type (q_type q) ans)
                     then chase_loop f q o rcode answer' t' (targets ++ [target])
                     else ChMsg rcode answer'
@@ -53,7 +53,7 @@ Proof.
     destruct (rc =? RC_NXDOMAIN); [injection H as _ <-; exact Hm|].
     destruct (negb merged); [injection H as _ <-; exact Hm|].
     destruct (last_cname_target a None) as [t'|]; [|injection H as _ <-; exact Hm].
-    destruct (bytes_list_eqb t' (q_name q)); [discriminate|].
+    destruct (name_eqb t' (q_name q)); [discriminate|].
     destruct (Nat.ltb 0 f && negb (has_type (q_type q) a)); [|injection H as _ <-; exact Hm].
     apply IH in H. destruct H as [e2 [-> He2]]. destruct Hm as [e1 [-> He1]].
     exists (e1 ++ e2). rewrite app_assoc. split; [reflexivity|]. apply incl_app; assumption.
